@@ -2,9 +2,10 @@
    (+ the annotation part of C01: the annotation front end never faults).
    Only statements closed by `exact` + Print Assumptions live here (and vm_compute witnesses of `_refuted`).
 
-   Vocabulary:  Spec/AnnGrammar.v   dtype / dstat = the documented grammar, show_type / show_line = canonical text,
-                                    embed_one / embed_stat = the implementation tree the text must be read as,
-                                    abs = reading an implementation tree back as a documented type;
+   Vocabulary:  Spec/AnnGrammar.v   dtype / dstat = the documented grammar, show_type / show_line = canonical text
+                                    (`(T[])[]`), show_type_plain / show_line_plain = the plain text (`T[][]`),
+                                    embed_type / embed_line (and _plain) = the implementation tree the text must be
+                                    read as, abs = reading an implementation tree back as a documented type;
                 Model/AnnParser.v   ann_parse_line (ParserLine), parse_type (parserOneType + rest-of-line comment),
                                     parse_fragment (ParseCommentFragment);  Model/AnnPrint.v  type_convert_str. *)
 From Coq Require Import String List NArith Bool.
@@ -20,80 +21,92 @@ Local Open Scope string_scope.
 (* every documented type, printed canonically, is read back as exactly the expected tree, with no comment left *)
 Theorem C16_type_roundtrip :
   forall t, doc_type t = true ->
-    parse_type (fuel_of (show_type t)) (show_type t) = Ok (inl (embed_one t, [])).
+    parse_type (fuel_of (show_type t)) (show_type t) = Ok (inl (embed_type t, [])).
 Proof. exact type_roundtrip. Qed.
 Print Assumptions C16_type_roundtrip.
 
 (* ... and that tree denotes the documented type (singleton MultiTypes forgotten): structure intact *)
-Theorem C16_embed_faithful : forall t, doc_type t = true -> abs (embed_one t) = t.
+Theorem C16_embed_faithful : forall t, doc_type t = true -> abs (embed_type t) = t.
 Proof. exact abs_embed_one. Qed.
 Print Assumptions C16_embed_faithful.
 
+(* the documented rule TYPE[] applied repeatedly, written without parentheses (`string[][]`, any depth, anywhere
+   inside any documented type): the plain text parses back to itself (repaired: the array suffix is read in a loop) *)
+Theorem C16_nested_array_roundtrip :
+  forall t, doc_type t = true ->
+    parse_type (fuel_of (show_type_plain t)) (show_type_plain t) = Ok (inl (embed_type_plain t, [])) /\
+    abs (embed_type_plain t) = t.
+Proof. exact (fun t Hd => conj (type_roundtrip_plain t Hd) (abs_embed_one_plain t Hd)). Qed.
+Print Assumptions C16_nested_array_roundtrip.
+
+(* the same seen as a text: any documented T (in parentheses when it is a union or a fun type) followed by n + 1
+   suffixes "[]" is read as the (n+1)-dimensional array of T, with nothing left as comment *)
+Theorem C16_nested_array_depth :
+  forall t n, doc_type t = true ->
+    let txt := (paren (item_paren false t) (show_type_plain t) ++ brs (S n))%list in
+    exists a, parse_type (fuel_of txt) txt = Ok (inl (a, [])) /\ abs a = darrs (S n) t.
+Proof. exact nested_array_depth. Qed.
+Print Assumptions C16_nested_array_depth.
+
+(* regression: the witness of the repaired finding C16-nested-array *)
+Example C16_nested_array_witness :
+  show_type_plain (DArray (DArray (DName (bs "string")))) = bs "string[][]" /\
+  parse_type (fuel_of (bs "string[][]")) (bs "string[][]")
+  = Ok (inl (AMulti [AArray (AArray (ANormal (bs "string") true))], [])) /\
+  ann_parse_line (fuel_of (bs "type string[][][]")) (bs "type string[][][]")
+  = Ok (inl (SType [(false, false, AMulti [AArray (AArray (AArray (ANormal (bs "string") true)))])] [])).
+Proof. repeat split; vm_compute; reflexivity. Qed.
+
 (* ================================================================== statements *)
 
-Definition C16_stat_roundtrip_full : Prop :=
-  forall s, doc_stat s = true ->
-    ann_parse_line (fuel_of (show_line s)) (show_line s) = Ok (inl (embed_stat s)).
-
-(* proved for all ten statement forms (type, alias, class, overload, field, param, return, generic, vararg, enum),
-   all modifiers and any trailing comment; the only exclusion is a comment on an enum line (refuted below) *)
+(* all ten statement forms (type, alias, class, overload, field, param, return, generic, vararg, enum), all
+   modifiers and any trailing comment *)
 Theorem C16_stat_roundtrip :
-  forall s, doc_stat s = true -> enum_with_comment s = false ->
-    ann_parse_line (fuel_of (show_line s)) (show_line s) = Ok (inl (embed_stat s)).
+  forall s, doc_stat s = true ->
+    ann_parse_line (fuel_of (show_line s)) (show_line s) = Ok (inl (embed_line s)).
 Proof. exact stat_roundtrip. Qed.
 Print Assumptions C16_stat_roundtrip.
 
-(* the trailing @comment is returned verbatim, whatever bytes it contains *)
+(* the trailing @comment is returned verbatim, whatever bytes it contains (repaired: also on `---@enum start @c`) *)
 Theorem C16_comment_kept :
-  forall s x, doc_stat s = true -> enum_with_comment s = false -> dstat_comment s = Some x ->
+  forall s x, doc_stat s = true -> dstat_comment s = Some x ->
     exists a, ann_parse_line (fuel_of (show_line s)) (show_line s) = Ok (inl a) /\ stat_comment a = x.
 Proof. exact comment_kept. Qed.
 Print Assumptions C16_comment_kept.
 
-(* `---@enum start @c`: GetRemainComment is called without a look-ahead token, the comment keeps " @" *)
-Theorem C16_enum_comment_refuted : ~ C16_stat_roundtrip_full.
-Proof.
-  intros H. specialize (H (DSEnum true (Some [99])) eq_refl). vm_compute in H. discriminate H.
-Qed.
-Print Assumptions C16_enum_comment_refuted.
-
+(* regression: the witness of the repaired finding C16-enum-comment (was " @c") *)
 Example C16_enum_comment_witness :
-  ann_parse_line (fuel_of (show_line (DSEnum true (Some [99])))) (show_line (DSEnum true (Some [99])))
-  = Ok (inl (SEnum 1 [32; 64; 99])).                         (* " @c" instead of "c" *)
-Proof. vm_compute. reflexivity. Qed.
+  enum_with_comment (DSEnum true (Some [99])) = true /\
+  show_line (DSEnum true (Some [99])) = bs "enum start @c" /\
+  ann_parse_line (fuel_of (bs "enum start @c")) (bs "enum start @c") = Ok (inl (SEnum 1 [99])).
+Proof. repeat split; vm_compute; reflexivity. Qed.
 
-(* the documented rule TYPE[] applied twice: `string[][]` is silently read as `string[]` + comment "[]" *)
-Theorem C16_nested_array_refuted :
-  exists s, doc_stat s = true /\ stat_nested_array s = true /\
-            ann_parse_line (fuel_of (show_line_plain s)) (show_line_plain s)
-            = Ok (inl (SType [(false, false, AMulti [AArray (ANormal (bs "string") true)])] (bs "[]"))) /\
-            ann_parse_line (fuel_of (show_line_plain s)) (show_line_plain s) <> Ok (inl (embed_stat s)).
-Proof.
-  exists (DSType [(false, false, DArray (DArray (DName (bs "string"))))] None).
-  split; [reflexivity|]. split; [reflexivity|]. split; [vm_compute; reflexivity|]. vm_compute. discriminate.
-Qed.
-Print Assumptions C16_nested_array_refuted.
-
-(* the documented grammar written naively (TYPE[] applied to any TYPE, no extra parentheses): accepted with its
-   structure intact unless a nested array occurs -- nested_array is the ONLY class of documented lines that fails *)
+(* the documented grammar written plainly (TYPE[] applied to any TYPE, no extra parentheses, `string[][]`):
+   accepted with its structure intact -- no exception left (repaired) *)
 Theorem C16_stat_roundtrip_plain :
-  forall s, doc_stat s = true -> enum_with_comment s = false -> stat_nested_array s = false ->
-    ann_parse_line (fuel_of (show_line_plain s)) (show_line_plain s) = Ok (inl (embed_stat s)).
+  forall s, doc_stat s = true ->
+    ann_parse_line (fuel_of (show_line_plain s)) (show_line_plain s) = Ok (inl (embed_line_plain s)).
 Proof. exact stat_roundtrip_plain. Qed.
 Print Assumptions C16_stat_roundtrip_plain.
 
 (* the same through ParseCommentFragment, for the comment line "-@..." (what leg c16.line observes) *)
 Theorem C16_stat_fragment_roundtrip :
-  forall s lno, doc_stat s = true -> enum_with_comment s = false -> stat_nested_array s = false ->
-    parse_fragment [(lno, (s_head ++ show_line_plain s)%list)] = Ok (mkFrag [embed_stat s] [lno] []).
-Proof. exact stat_fragment_roundtrip_plain. Qed.
+  forall s lno, doc_stat s = true ->
+    parse_fragment [(lno, (s_head ++ show_line s)%list)] = Ok (mkFrag [embed_line s] [lno] []) /\
+    parse_fragment [(lno, (s_head ++ show_line_plain s)%list)] = Ok (mkFrag [embed_line_plain s] [lno] []).
+Proof. exact (fun s lno Hd => conj (stat_fragment_roundtrip s lno Hd) (stat_fragment_roundtrip_plain s lno Hd)). Qed.
 Print Assumptions C16_stat_fragment_roundtrip.
 
-(* without a nested array the naive printer is the canonical one *)
-Example C16_plain_is_canonical :
-  show_line_plain (DSField (Some 1) false (bs "f") (DArray (DUnion [DName (bs "a"); DName (bs "b")])) None)
-  = show_line (DSField (Some 1) false (bs "f") (DArray (DUnion [DName (bs "a"); DName (bs "b")])) None).
-Proof. reflexivity. Qed.
+(* without a nested array the plain printer is the canonical one *)
+Theorem C16_plain_is_canonical : forall s, stat_nested_array s = false -> show_line_plain s = show_line s.
+Proof. exact show_line_plain_eq. Qed.
+Print Assumptions C16_plain_is_canonical.
+
+Example C16_plain_differs :
+  stat_nested_array (DSField (Some 1) false (bs "f") (DArray (DArray (DName (bs "a")))) None) = true /\
+  show_line_plain (DSField (Some 1) false (bs "f") (DArray (DArray (DName (bs "a")))) None) = bs "field protected f a[][]" /\
+  show_line (DSField (Some 1) false (bs "f") (DArray (DArray (DName (bs "a")))) None) = bs "field protected f (a[])[]".
+Proof. repeat split; vm_compute; reflexivity. Qed.
 
 (* ================================================================== fragments: line isolation *)
 
@@ -117,11 +130,10 @@ Theorem C16_line_isolation :
 Proof. exact line_isolation. Qed.
 Print Assumptions C16_line_isolation.
 
-(* the executable form used by the check (leg c16.fragment): outside the two classes below, ParseCommentFragment
+(* the executable form used by the check (leg c16.fragment): outside the class below, ParseCommentFragment
    = every unit (a line + its continuation lines) read on its own, Stats and Lines aligned *)
 Theorem C16_fragment_spec_agrees :
-  forall ls, frag_cont_after_bad ls = false -> frag_lines_desync ls = false ->
-    parse_fragment ls = parse_fragment_spec ls.
+  forall ls, frag_cont_after_bad ls = false -> parse_fragment ls = parse_fragment_spec ls.
 Proof. exact fragment_spec_agrees. Qed.
 Print Assumptions C16_fragment_spec_agrees.
 
@@ -129,31 +141,44 @@ Definition C16_fragment_spec_full : Prop := forall ls, parse_fragment ls = parse
 
 (* class cont_after_bad: the continuation line after a malformed alias line is appended to the PREVIOUS alias *)
 Theorem C16_cont_after_bad_refuted :
-  exists ls, frag_cont_after_bad ls = true /\ frag_lines_desync ls = false /\
-             parse_fragment ls <> parse_fragment_spec ls.
+  exists ls, frag_cont_after_bad ls = true /\ parse_fragment ls <> parse_fragment_spec ls.
 Proof.
   exists [(1, bs "-@alias A string"); (2, bs "-@alias B ?"); (3, bs "-| 'x'")].
-  split; [vm_compute; reflexivity|]. split; [vm_compute; reflexivity|]. vm_compute. discriminate.
+  split; [vm_compute; reflexivity|]. vm_compute. discriminate.
 Qed.
 Print Assumptions C16_cont_after_bad_refuted.
 
-(* class alias_lines: clearEmpytAlias removes an alias without type from Stats but not its line from Lines *)
-Theorem C16_alias_lines_refuted :
-  exists ls fr, frag_cont_after_bad ls = false /\ frag_lines_desync ls = true /\
-                parse_fragment ls = Ok fr /\ length (f_stats fr) <> length (f_lines fr) /\
-                parse_fragment ls <> parse_fragment_spec ls.
-Proof.
-  exists [(1, bs "-@alias A"); (2, bs "-@type string")]. eexists.
-  split; [vm_compute; reflexivity|]. split; [vm_compute; reflexivity|]. split; [vm_compute; reflexivity|].
-  split; [cbn; discriminate|]. vm_compute. discriminate.
-Qed.
-Print Assumptions C16_alias_lines_refuted.
-
 Theorem C16_fragment_spec_full_refuted : ~ C16_fragment_spec_full.
 Proof.
-  intros H. specialize (H [(1, bs "-@alias A"); (2, bs "-@type string")]). vm_compute in H. discriminate H.
+  intros H. specialize (H [(1, bs "-@alias A string"); (2, bs "-@alias B ?"); (3, bs "-| 'x'")]).
+  vm_compute in H. discriminate H.
 Qed.
 Print Assumptions C16_fragment_spec_full_refuted.
+
+(* Lines[i] is the line of Stats[i], for ALL inputs (repaired: clearEmpytAlias removes the line together with the
+   statement): the two slices have the same length ... *)
+Theorem C16_alias_lines_aligned :
+  forall ls fr, parse_fragment ls = Ok fr -> length (f_stats fr) = length (f_lines fr).
+Proof. exact parse_fragment_aligned. Qed.
+Print Assumptions C16_alias_lines_aligned.
+
+(* ... and they are exactly the (statement, line) pairs collected while the lines were read, minus the aliases
+   that never got a type *)
+Theorem C16_alias_lines_pairs :
+  forall ls, exists fr0,
+    frag_loop frag_empty ls = Ok fr0 /\ length (f_stats fr0) = length (f_lines fr0) /\
+    parse_fragment ls = Ok (clear_aligned fr0).
+Proof. exact fragment_pairs. Qed.
+Print Assumptions C16_alias_lines_pairs.
+
+(* regression: the witness of the repaired finding C16-alias-lines (was Stats = [type], Lines = [1; 2]) *)
+Example C16_alias_lines_witness :
+  frag_has_empty_alias [(1, bs "-@alias A"); (2, bs "-@type string")] = true /\
+  parse_fragment [(1, bs "-@alias A"); (2, bs "-@type string")]
+  = Ok (mkFrag [SType [(false, false, AMulti [ANormal (bs "string") true])] []] [2] []) /\
+  parse_fragment [(1, bs "-@alias A"); (2, bs "-@type string")]
+  = parse_fragment_spec [(1, bs "-@alias A"); (2, bs "-@type string")].
+Proof. repeat split; vm_compute; reflexivity. Qed.
 
 (* ================================================================== the implementation printer *)
 
@@ -161,7 +186,8 @@ Definition C16_impl_printer_full : Prop :=
   forall a, doc_type (abs a) = true ->
     exists a', parse_type (fuel_of (type_convert_str a)) (type_convert_str a) = Ok (inl (a', [])) /\ abs a' = abs a.
 
-(* proved part: no fun type, no string constant, no parenthesised array item, no union directly in a union *)
+(* proved part: no fun type, no string constant, no union directly in a union
+   (repaired: array items that are unions or arrays keep their parentheses, so they are inside the proved part) *)
 Theorem C16_impl_printer_partial :
   forall a, printer_guard a = true ->
     exists a', parse_type (fuel_of (type_convert_str a)) (type_convert_str a) = Ok (inl (a', [])) /\ abs a' = abs a.
@@ -172,22 +198,20 @@ Print Assumptions C16_impl_printer_partial.
 Theorem C16_impl_printer_line :
   forall a lno, printer_guard a = true ->
     parse_fragment [(lno, (s_head ++ k_type ++ type_convert_str a)%list)]
-    = Ok (mkFrag [SType [(false, false, embed_one (abs a))] []] [lno] []).
+    = Ok (mkFrag [SType [(false, false, embed_type (abs a))] []] [lno] []).
 Proof. exact printer_fragment. Qed.
 Print Assumptions C16_impl_printer_line.
 
-(* `(string|number)[]` prints `string | number[]`, which is `string | (number[])` *)
-Theorem C16_printer_union_refuted :
-  exists a, doc_type (abs a) = true /\ has_paren_item (abs a) = true /\
-            type_convert_str a = bs "string | number[]" /\
-            exists a', parse_type (fuel_of (type_convert_str a)) (type_convert_str a) = Ok (inl (a', [])) /\
-                       abs a' = DUnion [DName (bs "string"); DArray (DName (bs "number"))] /\ abs a' <> abs a.
-Proof.
-  exists (AMulti [AArray (AMulti [ANormal (bs "string") true; ANormal (bs "number") true])]).
-  split; [reflexivity|]. split; [reflexivity|]. split; [vm_compute; reflexivity|].
-  eexists. split; [vm_compute; reflexivity|]. split; [vm_compute; reflexivity|]. vm_compute. discriminate.
-Qed.
-Print Assumptions C16_printer_union_refuted.
+(* regression: the witnesses of the repaired finding C16-printer-union: `(string|number)[]` (was printed
+   `string | number[]` = string | (number[])) and `(string[])[]` (was printed `string[][]`) *)
+Example C16_printer_union_witness :
+  let a := AMulti [AArray (AMulti [ANormal (bs "string") true; ANormal (bs "number") true])] in
+  let b := AMulti [AArray (AMulti [AArray (ANormal (bs "string") true)])] in
+  has_paren_item (abs a) = true /\ printer_guard a = true /\ type_convert_str a = bs "(string | number)[]" /\
+  has_paren_item (abs b) = true /\ printer_guard b = true /\ type_convert_str b = bs "(string[])[]" /\
+  parse_type (fuel_of (type_convert_str a)) (type_convert_str a) = Ok (inl (a, [])) /\
+  parse_type (fuel_of (type_convert_str b)) (type_convert_str b) = Ok (inl (b, [])).
+Proof. repeat split; vm_compute; reflexivity. Qed.
 
 (* fun types are printed as `function(...)`, which reads back as the name `function` + a comment *)
 Theorem C16_printer_fun_refuted :
@@ -261,13 +285,17 @@ Example C16_doc_stat_inhabited :
   doc_stat (DSParam true (bs "const") true ex_type None) = true /\
   doc_stat (DSReturn [(DFun [] [DName (bs "a")], true); (ex_type, false)] (Some [])) = true /\
   doc_stat (DSGeneric [(bs "T", Some (bs "Base")); (bs "K", None)] (Some (bs "c"))) = true /\
-  doc_stat (DSClass (bs "Man") [bs "People"; bs "Team"] (Some (bs "c"))) = true.
+  doc_stat (DSClass (bs "Man") [bs "People"; bs "Team"] (Some (bs "c"))) = true /\
+  doc_stat (DSEnum false (Some (bs " @ x"))) = true /\
+  doc_stat (DSVararg (DArray (DArray (DArray (DUnion [DName (bs "a"); DArray (DArray DTable0)])))) None) = true.
 Proof. repeat split. Qed.
 
 Example C16_printer_guard_inhabited :
   printer_guard (AMulti [ATable (AMulti [ANormal (bs "string") true])
                                 (AMulti [AArray (ANormal (bs "People") true)]);
-                         AArray (AMulti [ATableEmpty]); ANormal (bs "...") true]) = true.
+                         AArray (AMulti [ATableEmpty; AArray (AArray (ANormal (bs "a.b") true))]);
+                         AArray (AMulti [AArray (AMulti [ANormal (bs "x") true; ANormal (bs "y") true])]);
+                         ANormal (bs "...") true]) = true.
 Proof. reflexivity. Qed.
 
 Example C16_self_contained_inhabited :
@@ -278,6 +306,7 @@ Example C16_self_contained_inhabited :
 Proof. split; vm_compute; reflexivity. Qed.
 
 Example C16_fragment_guard_inhabited :
-  let ls := [(1, bs "-@alias M"); (2, bs "-| 'r' # read"); (3, bs "-@type ?"); (4, bs "-@class A : B @c")] in
-  frag_cont_after_bad ls = false /\ frag_lines_desync ls = false.
-Proof. split; vm_compute; reflexivity. Qed.
+  let ls := [(1, bs "-@alias M"); (2, bs "-| 'r' # read"); (3, bs "-@type ?"); (4, bs "-@class A : B @c");
+             (5, bs "-@alias Empty @never typed"); (6, bs "-@enum end @c")] in
+  frag_cont_after_bad ls = false.
+Proof. vm_compute. reflexivity. Qed.
